@@ -173,6 +173,16 @@ macro_rules! wide_case {
                 3 => min / 2,
                 4 => max / 2 + 1,
                 5 => rng.range_i64(-20, 20) as i128,
+                // as wide as the factor type's mantissa and odd: every bit of the float is in use, so a
+                // rounding step that adds a half (instead of calling round) is off by one here
+                6 => {
+                    let m = (1i128 << ($mant - 1)) | ((rng.next_u64() as i128) & ((1i128 << ($mant - 1)) - 1)) | 1;
+                    if min < 0 && rng.bool() {
+                        -m
+                    } else {
+                        m
+                    }
+                }
                 _ => {
                     let bits = rng.below(<$T>::BITS as u64) as u32;
                     let m = (rng.next_u64() as i128) & ((1i128 << bits) - 1);
@@ -185,20 +195,26 @@ macro_rules! wide_case {
             };
             v.clamp(min, max)
         };
-        let (from, to) = (ep(&mut rng), ep(&mut rng));
+        let (from, mut to) = (ep(&mut rng), ep(&mut rng));
+        match rng.below(8) {
+            0 => to = from,
+            1 => to = (from + rng.range_i64(-20, 20) as i128).clamp(min, max),
+            _ => {}
+        }
         let k = rng.range_i64(-8, 16) as i128;
         let mut h = H64::new();
         h.s($name).s($fname).i(from).i(to).i(k);
         // the property covers endpoints the factor's float type represents exactly; in addition the
         // oracle only judges cases whose intermediate real values are exactly representable, so
         // that float rounding (incl. double rounding before `round`) cannot matter
+        // (as built after seeded change C12_N: the two formulas are judged separately, each on the cases
+        // where *its* intermediates are exact - equal endpoints, for instance, make every intermediate of the
+        // fast formula exact whatever the factor, while from*(1-t) of the precise one is not)
         let n8 = 8 * from + k * (to - from);
-        let exact_ok = float_exact(from, $mant)
-            && float_exact(to, $mant)
-            && float_exact(to - from, $mant)
-            && float_exact(n8, $mant)
-            && float_exact(from * (8 - k), $mant)
-            && float_exact(to * k, $mant);
+        let ends_ok = float_exact(from, $mant) && float_exact(to, $mant) && float_exact(n8, $mant);
+        let exact_fast = ends_ok && float_exact(to - from, $mant) && float_exact(k * (to - from), $mant);
+        let exact_precise = ends_ok && float_exact(from * (8 - k), $mant) && float_exact(to * k, $mant);
+        let exact_ok = exact_fast || exact_precise;
         let e = int_model(from, to, k);
         if !exact_ok {
             $sub.inconclusive("outside_domain:endpoint_or_intermediate_not_exact_in_factor_type");
@@ -218,8 +234,8 @@ macro_rules! wide_case {
             let g5 = if inside { guarded(|| <$T as Lerp<$F>>::lerp(a, b, f)) } else { g1.clone() };
             let g6 = if inside { guarded(|| <&$T as Lerp<$F>>::lerp_precise(&a, &b, f)) } else { g4.clone() };
             let mut bad = None;
-            for (api, g) in [("Lerp::lerp_unclamped", &g1), ("Lerp::lerp_unclamped_precise", &g2), ("Lerp::lerp_unclamped", &g3), ("Lerp::lerp_unclamped_precise", &g4), ("Lerp::lerp", &g5), ("Lerp::lerp_precise", &g6)] {
-                if !matches!(g, Ok(v) if *v as i128 == e) && bad.is_none() {
+            for (api, g, judged) in [("Lerp::lerp_unclamped", &g1, exact_fast), ("Lerp::lerp_unclamped_precise", &g2, exact_precise), ("Lerp::lerp_unclamped", &g3, exact_fast), ("Lerp::lerp_unclamped_precise", &g4, exact_precise), ("Lerp::lerp", &g5, exact_fast), ("Lerp::lerp_precise", &g6, exact_precise)] {
+                if judged && !matches!(g, Ok(v) if *v as i128 == e) && bad.is_none() {
                     bad = Some((api, g.clone()));
                 }
             }
@@ -696,7 +712,7 @@ fn main() {
 
     let nw = cfg.n(40_000, 8_000_000);
     {
-        let proto = Sub::new("int_lerp_wide", "i16 u16 i32 u32 i64 u64 isize usize, factor types f32 and f64: endpoints from {MIN, MAX, 0, MIN/2, MAX/2+1, small, random magnitude}, factors k/8; judged when endpoints, difference, products and result are exactly representable in the factor type (so float rounding cannot matter) and the result is in range; expected = exact rational rounded half away from zero; non-trivial = from != to and factor not 0 or 1").with_floor(nw / 20);
+        let proto = Sub::new("int_lerp_wide", "i16 u16 i32 u32 i64 u64 isize usize, factor types f32 and f64: endpoints from {MIN, MAX, 0, MIN/2, MAX/2+1, small, random magnitude}, factors k/8; each formula judged when its own intermediates (fast: difference, product, sum; precise: both products, sum) and the result are exactly representable in the factor type (so float rounding cannot matter) and the result is in range; expected = exact rational rounded half away from zero; non-trivial = from != to and factor not 0 or 1").with_floor(nw / 20);
         let s = run_cases(&cfg, proto, nw, |s, i| match i % 16 {
             0 => wide_case!(s, &cfg, i, i16, "i16", f32, "f32", 24),
             1 => wide_case!(s, &cfg, i, u16, "u16", f32, "f32", 24),
